@@ -305,6 +305,14 @@ def chk_derivation(rng):
                     rel = 'raised %s' % type(e).__name__
                 if rel is not True:
                     fails.append(rec('derivation', 'parent.isSuperTypeOf(child) is %r for %s' % (rel, desc), kind='isSuperTypeOf'))
+                # the same relation asked from the child's side, on the constraint objects (both directions)
+                for a_, b_, what in ((child, parent, 'child/parent'), (parent, child, 'parent/child')):
+                    n += 1
+                    sub = a_.subtypeSpec.isSubTypeOf(b_.subtypeSpec)
+                    sup = b_.subtypeSpec.isSuperTypeOf(a_.subtypeSpec)
+                    if bool(sub) != bool(sup):
+                        fails.append(rec('derivation', 'isSubTypeOf disagrees with isSuperTypeOf (%s): %r vs %r for %s' % (
+                            what, sub, sup, desc), kind='isSubTypeOf'))
                 for j in range(i):
                     n += 1
                     try:
@@ -381,6 +389,95 @@ def chk_derivation(rng):
             if accepted != (1 <= k <= 2):
                 fails.append(rec('derivation', 'SequenceOf(%s=SIZE(1..2)) with %d elements is %s' % (
                     nm, k, 'accepted' if accepted else 'refused'), kind='encode-constructed'))
+    # documented usage: a bare constraint declared at class level; subtyping it narrows, whatever the constraint class
+    class DivisorOfSix(univ.Integer):
+        subtypeSpec = C.SingleValueConstraint(1, 2, 3, 6)
+
+    class TeenAgeYears(univ.Integer):
+        subtypeSpec = C.ValueRangeConstraint(13, 19)
+    for base_t, extra, lo_hi in ((DivisorOfSix(), C.SingleValueConstraint(2, 3, 7), None),
+                                 (DivisorOfSix(), C.ValueRangeConstraint(2, 7), None),
+                                 (TeenAgeYears(), C.ValueRangeConstraint(15, 25), None),
+                                 (TeenAgeYears(), C.SingleValueConstraint(12, 14), None)):
+        n += 1
+        try:
+            derived = base_t.subtype(subtypeSpec=extra)
+        except Exception as e:
+            fails.append(rec('derivation', '%s().subtype(subtypeSpec=%r) raised %s' % (type(base_t).__name__, extra, type(e).__name__),
+                             kind='bare-class-level'))
+            continue
+        for v in range(0, 30):
+            n += 1
+            def admits_(t, v):
+                try:
+                    t.clone(v)
+                    return True
+                except perror.PyAsn1Error:
+                    return False
+            def in_(c, v):
+                try:
+                    c(v)
+                    return True
+                except perror.PyAsn1Error:
+                    return False
+            want = in_(type(base_t).subtypeSpec, v) and in_(extra, v)
+            if admits_(derived, v) != want:
+                fails.append(rec('derivation', '%s().subtype(subtypeSpec=%r) %s %d' % (
+                    type(base_t).__name__, extra, 'admits' if not want else 'refuses', v), kind='bare-class-level'))
+        n += 1
+        if base_t.isSuperTypeOf(derived) is not True:
+            fails.append(rec('derivation', '%s() does not recognise its subtype %r' % (type(base_t).__name__, extra),
+                             kind='bare-class-level'))
+    # the two switches of the subtype test are independent: skipping the tag match must not skip the constraint match
+    P = univ.Integer().subtype(subtypeSpec=C.ValueRangeConstraint(1, 5))
+    Ptagged = P.subtype(implicitTag=__import__('pyasn1.type.tag', fromlist=['Tag']).Tag(128, 0, 3))
+    for val, in_range in ((univ.Integer(3), False), (univ.Integer(99), False), (P.clone(3), True)):
+        for mt in (True, False):
+            for mc in (True, False):
+                n += 1
+                tags_ok = True            # all candidates carry the parent's tags
+                want = (not mc) or in_range
+                got = P.isSuperTypeOf(val, mt, mc)
+                if bool(got) != want:
+                    fails.append(rec('derivation', 'INTEGER (1..5).isSuperTypeOf(%r, matchTags=%s, matchConstraints=%s) is %s' % (
+                        val, mt, mc, got), kind='subtype-switches'))
+                got2 = Ptagged.isSuperTypeOf(val, mt, mc)
+                want2 = ((not mt) or False) and want
+                n += 1
+                if bool(got2) != want2:
+                    fails.append(rec('derivation', '[3] INTEGER (1..5).isSuperTypeOf(%r, matchTags=%s, matchConstraints=%s) is %s' % (
+                        val, mt, mc, got2), kind='subtype-switches'))
+    for mt in (True, False):
+        n += 1
+        so = univ.SequenceOf(componentType=P)
+        try:
+            so.setComponentByPosition(0, univ.Integer(99), matchTags=mt)
+            accepted = True
+        except perror.PyAsn1Error:
+            accepted = False
+        if accepted:
+            fails.append(rec('derivation', 'SEQUENCE OF INTEGER (1..5) accepts Integer(99) with matchTags=%s' % mt,
+                             kind='subtype-switches'))
+    # ... also for collections declared without a component type (members given as value objects), by every encoder
+    from pyasn1.codec.ber import encoder as be_
+    from pyasn1.codec.cer import encoder as ce_
+    from pyasn1.codec.native import encoder as ne_
+    for cls in (univ.SequenceOf, univ.SetOf):
+        for k in (0, 1, 2, 3):
+            v = cls(subtypeSpec=C.ValueSizeConstraint(1, 2))
+            v.clear()
+            for i in range(k):
+                v.append(univ.Integer(i))
+            for ename, enc in (('BER', be_), ('CER', ce_), ('DER', de), ('native', ne_)):
+                n += 1
+                try:
+                    enc.encode(v)
+                    accepted = True
+                except perror.PyAsn1Error:
+                    accepted = False
+                if accepted != (1 <= k <= 2):
+                    fails.append(rec('derivation', 'untyped %s SIZE(1..2) with %d elements is %s by the %s encoder' % (
+                        cls.__name__, k, 'accepted' if accepted else 'refused', ename), kind='encode-constructed'))
     return fails, n
 
 
